@@ -723,10 +723,14 @@ class Machine:
             if f == 'ulps_eq':
                 if conc:
                     return [ulps_eq_f64(x, y, a[2][0], a[3][0])]
+                if getattr(s, 'concrete_opaque', False) and not any(is_sym(z) for z in (x, y, a[2][0], a[3][0])):
+                    return [ulps_eq_f64(float(x), float(y), float(a[2][0]), int(a[3][0]))]
                 return [app('ulps_eq', 'Bool', to_real(x), to_real(y), to_real(a[2][0]), a[3][0])]
             if f == 'relative_eq':
                 if conc:
                     return [relative_eq_f64(x, y, a[2][0], a[3][0])]
+                if getattr(s, 'concrete_opaque', False) and not any(is_sym(z) for z in (x, y, a[2][0], a[3][0])):
+                    return [relative_eq_f64(float(x), float(y), float(a[2][0]), float(a[3][0]))]
                 return [app('relative_eq', 'Bool', to_real(x), to_real(y), to_real(a[2][0]), to_real(a[3][0]))]
             return None
         if trait == 'PartialOrd' and f == 'partial_cmp':
